@@ -37,6 +37,7 @@ def main():
     ap.add_argument("--checks", default="")
     ap.add_argument("--tier", default="quick")
     ap.add_argument("--keep", default="")
+    ap.add_argument("--inplace", action="store_true", help="apply the patch to /repo itself (undone afterwards) instead of a scratch worktree")
     a = ap.parse_args()
     cdir = Path(a.change_dir).resolve()
     patch = cdir / "patch.diff"
@@ -77,7 +78,24 @@ def main():
     confirmed = res.get("demo_without_patch_rc") == 0 and res.get("demo_with_patch_rc") not in (0, None)
     res["confirmed_breaks_property_demo"] = confirmed
     checks = a.checks.split()
-    if checks:
+    if checks and not a.inplace:
+        # run our checks against a scratch worktree carrying the patch (VERIF_REPO), /repo itself stays untouched
+        rw = Path(f"/tmp/seedrun_{a.pid}_{os.getpid()}")
+        sh(f"git -C /repo worktree add -q --detach {rw} HEAD")
+        try:
+            rc, out = sh(f"git apply {patch}", cwd=rw)
+            res["checks"] = {}
+            for c in checks:
+                t0 = time.time()
+                rcc, outc = sh(f"./check {c} --tier {a.tier}", cwd=VERIF, timeout=7200, env={"VERIF_REPO": str(rw)})
+                viol = [l for l in outc.splitlines() if l.startswith("VIOLATION")]
+                expl = [l for l in outc.splitlines() if l.startswith("# ")]
+                res["checks"][c] = {"exit": rcc, "violations": len(viol), "first": (expl[:2] if expl else outc.splitlines()[-3:]),
+                                    "wall_s": round(time.time() - t0), "against": "scratch worktree via VERIF_REPO"}
+        finally:
+            sh(f"git -C /repo worktree remove --force {rw}")
+            shutil.rmtree(rw, ignore_errors=True)
+    elif checks:
         rc, out = sh("git -C /repo status --porcelain")
         if out.strip():
             print("refusing: /repo has uncommitted changes", file=sys.stderr)
@@ -91,7 +109,7 @@ def main():
                 viol = [l for l in outc.splitlines() if l.startswith("VIOLATION")]
                 expl = [l for l in outc.splitlines() if l.startswith("# ")]
                 res["checks"][c] = {"exit": rcc, "violations": len(viol), "first": (expl[:2] if expl else outc.splitlines()[-3:]),
-                                    "wall_s": round(time.time() - t0)}
+                                    "wall_s": round(time.time() - t0), "against": "/repo with the patch applied, undone afterwards"}
         finally:
             sh("git -C /repo checkout -- .")
             rc, out = sh("git -C /repo status --porcelain")
